@@ -286,9 +286,11 @@ impl SimpleValidator {
         let fee = sum_inputs.checked_sub(sum_outputs).ok_or_else(|| {
             policy_error(tag, format!("fee underflow: {} - {}", sum_inputs, sum_outputs))
         })?;
-        let feerate_perkw = estimate_feerate_per_kw(fee, weight as u64);
+        // Compare the exact rate (not the u32-clamped estimate), so that a policy with
+        // max_feerate_per_kw == u32::MAX is still a bound and not "unlimited".
+        let feerate_perkw: u128 = (fee as u128 * 1000 + 999) / weight as u128;
         debug!("validate_fee fee:{} / weight:{} = feerate_perkw:{}", fee, weight, feerate_perkw);
-        if feerate_perkw < self.policy.min_feerate_per_kw {
+        if feerate_perkw < self.policy.min_feerate_per_kw as u128 {
             policy_err!(
                 self,
                 tag, // also policy-{commitment,mutual}-fee-range
@@ -297,7 +299,7 @@ impl SimpleValidator {
                 self.policy.min_feerate_per_kw
             );
         }
-        if feerate_perkw > self.policy.max_feerate_per_kw {
+        if feerate_perkw > self.policy.max_feerate_per_kw as u128 {
             policy_err!(
                 self,
                 tag, // also policy-{commitment,mutual}-fee-range
@@ -324,8 +326,9 @@ impl SimpleValidator {
                 ),
             )
         })?;
-        let feerate_perkw = estimate_feerate_per_kw(non_beneficial, weight as u64);
-        if feerate_perkw > self.policy.max_feerate_per_kw {
+        // Compare the exact rate (not the u32-clamped estimate), see validate_fee.
+        let feerate_perkw: u128 = (non_beneficial as u128 * 1000 + 999) / weight as u128;
+        if feerate_perkw > self.policy.max_feerate_per_kw as u128 {
             let dev_flags = self.policy.dev_flags.as_ref().unwrap_or(&DEFAULT_DEV_FLAGS);
             if dev_flags.disable_beneficial_balance_checks {
                 error!(
